@@ -182,6 +182,34 @@ class FramingCtx(object):
                 stream = rp.encode_keepalive() + stream
             if rng.chance(0.5):
                 stream += rp.encode_keepalive()
+        elif mode == "random" and rng.chance(0.08):
+            # long valid stream (> 4096 octets in flight): many messages per segment, or a maximum-size
+            # message followed by more
+            state = "Established"
+            as4 = False
+            parts = []
+            if rng.chance(0.4):
+                pfx = ["10.%d.%d.0/24" % (i // 256, i % 256) for i in range(1015)]
+                attrs = {"origin": 0, "as_path": [(2, [cfg["remote_as"] & 0xFFFF or 1])], "next_hop": "10.0.0.2"}
+                big = rp.encode_update([], attrs, pfx, as4=False)
+                while len(big) > 4096:
+                    pfx.pop()
+                    big = rp.encode_update([], attrs, pfx, as4=False)
+                parts.append(big)
+                parts.append(rp.encode_keepalive())
+            total = sum(len(x) for x in parts)
+            target = rng.pick([4200, 5000, 9000])
+            while total < target:
+                m = rng.pick([rp.encode_keepalive(), rp.encode_keepalive(), base.gen_update(rng, cfg, as4), base.gen_rr(rng)])
+                parts.append(m)
+                total += len(m)
+            stream = b"".join(parts)
+            n = len(stream)
+            segs = [[], [n // 2], [n // 3, 2 * n // 3], list(range(1000, n, 1000)), list(range(64, n, 64))]
+            for _ in range(3):
+                segs.append(sorted(rng.sample(range(1, n), rng.randrange(1, 6))))
+            self.stats["gen:long_streams(>4096)"] += 1
+            return ["family", state, stream.hex(), segs, 0]
         else:
             nframes = rng.randrange(1, 7)
             stream = b"".join(self.gen_frame(rng, state) for _ in range(nframes))
@@ -247,7 +275,7 @@ class FramingCtx(object):
         self.stats["families"] += 1
         self.stats["segments_delivered"] += sum(len(set(c)) + 1 for c, _, _ in members)
         base_cuts, base_m, base_s = members[0]
-        frames, rest = rp.deframe(stream)
+        frames, rest = rp.deframe(stream, strict=True)
         kinds = []
         for f in frames:
             kinds.append(base.classify_frame(f)[0] if not f.error else "bad_" + f.error[0])
@@ -281,9 +309,9 @@ class FramingCtx(object):
                                 {"whole": base_s, "cut": s, "cuts": cuts})
         # (b) reference: deframer + C01 model on the whole-chunk member.  An unknown type octet in a
         # frame whose body has not fully arrived may be rejected at once or when the frame is complete.
-        frames_late, _ = rp.deframe(stream, early_type=False)
+        frames_late, _ = rp.deframe(stream, early_type=False, strict=True)
         if [f.error for f in frames_late] != [f.error for f in frames]:
-            self.stats["bad_type_with_partial_body(two_allowed_readings)"] += 1
+            self.stats["bad_type_or_length_with_partial_body(two_allowed_readings)"] += 1
             try:
                 self.reference_check(state, stream, frames_late, base_m, base_s, cell)
                 return
@@ -363,6 +391,9 @@ class FramingCtx(object):
         optional_last = None
         for f, pat in zip(frames, path):
             if f.error:
+                if f.error[0] == "length" and f.type in CB_OF_TYPE and 19 <= f.length <= 4096:
+                    # a KEEPALIVE / OPEN of illegal length may be reported before its length is judged
+                    optional_last = CB_OF_TYPE[f.type]
                 break
             name = CB_OF_TYPE.get(f.type, ("update_received", "on_update_error"))
             if any(tok[0] == "lose" for tok in pat):
@@ -426,7 +457,7 @@ class FramingProfile(BaseProfile):
             "segments); thorough adds every 1-cut (streams <= 400 B), every 2-cut (<= 64 B) and the full sweep of the "
             "length field 0..65535 and the type octet 0..255; non-trivial = the prefix reached the intended state; "
             "distinct = distinct (state, frame-kind sequence, partial-tail) triple")
-    probes = ["frame:bad_marker", "frame:bad_length", "frame:bad_type", "frame:UPDATE", "frame:OPEN", "frame:KEEPALIVE",
+    probes = ["gen:long_streams(>4096)", "frame:bad_marker", "frame:bad_length", "frame:bad_type", "frame:UPDATE", "frame:OPEN", "frame:KEEPALIVE",
               "frame:NOTIFICATION", "frame:ROUTE-REFRESH", "stream_with_partial_tail", "delayed_segments", "reference_full"]
 
     def gen_config(self, rng, idx, tier):
